@@ -21,7 +21,7 @@ ASSUMPTIONS = [
     "pure differential oracle: no reference model, the two mixins are compared with each other",
     "only tree-node arguments (NodeMixin type-checks its arguments, LightNodeMixin does not; the statement restricts itself to tree-node arguments)",
     "both classes share the same label-based __repr__ so that rendered text is comparable",
-    "hooks either log, raise, or (plan 'evict') detach the first other child of the hook's parent argument - a hook that edits the tree is a nested structural call and must behave the same in both mixins",
+    "hooks either log, raise, or (plan 'evict') detach the first other child of the hook's parent argument; a *_children hook re-files the first listed child under another node of the universe - a hook that edits the tree is a nested structural call and must behave the same in both mixins",
 ]
 
 
